@@ -182,4 +182,25 @@ def rowHeight (h : List Char) (a : Attrs) : Attrs := { a with ht := some h, cust
 def rowVisible (v : Bool) (a : Attrs) : Attrs := { a with hidden := !v }
 def rowOutline (lv : Nat) (a : Attrs) : Attrs := { a with outlineLevel := lv }
 
+/-! ## `SetCellStyle` over a rectangle (styles.go): `prepareSheetXML`, `makeContiguousColumns`, then `S` of
+every cell of the rectangle — the same final worksheet as writing the style cell by cell -/
+
+def setStyle (st : Nat) (k : Content) : Content := { k with s := st }
+
+/-- the cell slots (row slot, cell slot) of the rectangle, row by row -/
+def positions (i1 j1 i2 j2 : Nat) : List (Nat × Nat) :=
+  (List.range' i1 (i2 + 1 - i1)).flatMap fun i => (List.range' j1 (j2 + 1 - j1)).map fun j => (i, j)
+
+def styleRect (rows : List Row) (i1 j1 i2 j2 st : Nat) : List Row :=
+  (positions i1 j1 i2 j2).foldl (fun rs p => writeCell rs p.1 p.2 (setStyle st)) rows
+
+/-- a cell that carries an inline string also carries a type, a value or a formula (every setter that
+sets `IS` sets `T`); needed because a style change can make `hasValue` false -/
+def CellInv (k : Content) : Prop := k.is.isSome → (k.v ≠ [] ∨ k.f.isSome ∨ k.t ≠ [])
+
+def GridInv (rows : List Row) : Prop := ∀ i j, CellInv (Grid.abs rows i j)
+
+/-- the payload without the style id -/
+def eraseS (k : Content) : Content := { k with s := 0 }
+
 end XlModel.SaveBook
